@@ -585,6 +585,11 @@ func Coordinate(p *Prop, tier string, verifDir string, workers int) int {
 
 	js, _ := json.MarshalIndent(ev, "", " ")
 	evPath := filepath.Join(verifDir, "evidence", p.ID+".json")
+	if alt := os.Getenv("VERIF_EVIDENCE_DIR"); alt != "" {
+		// a run against a stand-in tree (seeded change in a scratch worktree) must not overwrite the evidence of /repo
+		_ = os.MkdirAll(alt, 0o755)
+		evPath = filepath.Join(alt, p.ID+".json")
+	}
 	_ = os.MkdirAll(filepath.Dir(evPath), 0o755)
 
 	if err := os.WriteFile(evPath, append(js, '\n'), 0o644); err != nil {
